@@ -106,8 +106,10 @@ type Field struct {
 // Spec is a parsed expression.
 type Spec struct {
 	F [nFields]Field
-	// Zone is the name given with TZ= / CRON_TZ= ("" if there was no prefix).
+	// Zone is the name given with TZ= / CRON_TZ= ("" if there was no prefix);
+	// Loc is that zone as the standard library's time zone database knows it.
 	Zone string
+	Loc  *time.Location
 	// IsEvery: "@every <duration>"; Delay is the parsed duration as written.
 	IsEvery bool
 	Delay   time.Duration
@@ -136,6 +138,11 @@ func Parse(expr string, o Options) (*Spec, error) {
 			if sp.Zone == "" {
 				return nil, refuse("empty zone name")
 			}
+			loc, err := time.LoadLocation(sp.Zone)
+			if err != nil {
+				return nil, refuse("unknown time zone %q", sp.Zone)
+			}
+			sp.Loc = loc
 			rest = body[i+1:]
 			break
 		}
